@@ -225,7 +225,20 @@ func (g *jgen) countScenario(fam, class string, s *jScenario) {
 			}
 		}
 	}
-	for _, v := range s.repScript {
+	for k, v := range s.repScript {
+		withID := "without-last-event-id"
+		if s.kind != 4 && (v == 98 || v >= 100) {
+			// the k-th Replay call is for the k-th subscription the loop takes; where the subscribers start one after
+			// the other that is subscriber k
+			if k < len(s.subs) && s.subs[k].idopt.Present() {
+				withID = "with-last-event-id"
+			}
+			if v == 98 {
+				seen["replay-panics/subscriber-"+withID] = true
+			} else {
+				seen["replay-errors/subscriber-"+withID] = true
+			}
+		}
 		if v == 98 {
 			seen["replay-panics"] = true
 		} else if v >= 100 && s.kind != 4 {
@@ -310,6 +323,35 @@ func (g *jgen) sprinkleSame(s *jScenario) {
 	}
 }
 
+// someID: a Last-Event-ID a client may present (a numeral, text, set but empty).
+func (g *jgen) someID() val.V {
+	return jID(rng.Pick(g.r, []string{"0", "1", "3", "7", "m1", "m2", "zz", ""}))
+}
+
+// presentIDs: subscribers present a Last-Event-ID - mode 0 nobody, 1 everybody, 2 each one with probability 1/2, 3 those
+// that pick says.  Only where nothing is stored by ID (the scripted wrapper alone / no replayer): there a presented ID
+// changes nothing of what Joe owes the subscription - whatever Replay then answers (ok, an error, a panic).
+func (g *jgen) presentIDs(s *jScenario, mode int, pick func(i int) bool) {
+	if s.kind != 0 && s.kind != 4 {
+		return
+	}
+	for i := range s.subs {
+		if s.subs[i].idopt.Present() {
+			continue
+		}
+		if mode == 1 || mode == 2 && g.r.Bool() || mode == 3 && pick != nil && pick(i) {
+			s.subs[i].idopt = g.someID()
+		}
+	}
+}
+
+// sprinkleIDs: in one scenario of four of every class some subscribers present a Last-Event-ID (see presentIDs).
+func (g *jgen) sprinkleIDs(fam string, s *jScenario) {
+	if fam == "joe" && g.r.Chance(1, 4) {
+		g.presentIDs(s, 2, nil)
+	}
+}
+
 func jNoFault(script []uint64) bool {
 	for _, v := range script {
 		if v == 98 || v >= 100 {
@@ -368,6 +410,7 @@ func (g *jgen) noReplayer(fam string, s *jScenario) {
 func (g *jgen) emit(fam, class string, s *jScenario) {
 	g.sprinkleBlank(s)
 	g.sprinkleSame(s)
+	g.sprinkleIDs(fam, s)
 	g.noReplayer(fam, s)
 	g.countScenario(fam, class, s)
 	g.c.Emit(val.L(s.enc()))
@@ -631,6 +674,9 @@ func (g *jgen) tplShutdown(maxSubs int) (*jScenario, string) {
 			late := jSubSpec{topics: []uint64{topic}, start: jEvN(34, jAny, early)}
 			if g.r.Chance(1, 4) {
 				late.hasCancel, late.cancel = true, jEv(rng.Pick(g.r, []uint64{41, 18}), rng.Pick(g.r, []uint64{i, jAny}))
+			}
+			if g.r.Bool() {
+				late.idopt = g.someID()
 			}
 			s.subs = append(s.subs, late)
 			// the k-th Replay call is the k-th subscription the loop takes: the late one is the last
@@ -932,6 +978,8 @@ func (g *jgen) tplRepFault(maxSubs int) (*jScenario, string) {
 		s.subs[0].script = append(jZeros(g.r.Intn(4)), g.werr())
 		s.subs[0].selfCancel = g.r.Bool()
 	}
+	// Last-Event-ID presented by nobody / everybody / some: x every verdict of the Replay for that subscription
+	g.presentIDs(s, g.r.Intn(3), nil)
 	s.shuts = []jShutSpec{jFinalShut()}
 	return s, name
 }
@@ -1021,6 +1069,14 @@ func (g *jgen) tplFaultSeq(n, maxSubs int) (*jScenario, string) {
 		}
 	}
 	s.pubs = append(s.pubs, pt)
+	// who presents a Last-Event-ID: nobody, the subscribers whose Replay is scripted to fail or panic, everybody
+	// (n walks through the three for each of the 16 pairs)
+	switch (n / 16) % 3 {
+	case 1:
+		g.presentIDs(s, 3, func(i int) bool { return i < len(s.repScript) && s.repScript[i] != 0 })
+	case 2:
+		g.presentIDs(s, 1, nil)
+	}
 	s.shuts = []jShutSpec{jFinalShut()}
 	return s, names[f1] + "+" + names[f2]
 }
@@ -1205,6 +1261,7 @@ func (g *jgen) tplRandom(maxSubs int) *jScenario {
 			}
 			s.repScript = append(s.repScript, v)
 		}
+		g.presentIDs(s, 2, nil)
 	}
 	return s
 }
